@@ -161,7 +161,11 @@ def r11_3(chk, P):
              'zeroing memset of vb->pcm[i] precedes the residue inverse calls and depends on nothing but the channel loop')
     for fn in ('vorbis_synthesis', 'vorbis_synthesis_trackonly'):
         F = P.need(fn)
-        rip = list(F.calls('_vorbis_block_ripcord'))
+        # the reset itself or a helper that performs it on every path
+        resetters = k2.must_do(P, k2.s_call('_vorbis_block_ripcord'))
+        rip = [c for c in F.calls() if F.ex[c]['callee'].get('d') == '_vorbis_block_ripcord'
+               or (F.ex[c]['callee'].get('d') and P.get(F.ex[c]['callee']['d'], F) is not None
+                   and P.key(P.get(F.ex[c]['callee']['d'], F)) in resetters)]
         users = [c for c in F.calls() if F.ex[c]['callee'].get('d') == '_vorbis_block_alloc'
                  or F.ex[c]['callee'].get('slot') == ['vorbis_func_mapping', 'inverse']]
         ok = bool(rip) and all(any(cfg.pos_dominates(F, r, u) for r in rip) for u in users)
